@@ -240,6 +240,10 @@ func workload(seed int64, rounds int) [][]byte {
 	copy(ue.KnasEnc[:], ev.Bytes(r, 16))
 	copy(ue.KnasInt[:], ev.Bytes(r, 16))
 	ue.AuthenticationSubs = tglib.GetAuthSubscription(fmt.Sprintf("%x", ev.Bytes(r, 16)), fmt.Sprintf("%x", ev.Bytes(r, 16)), "")
+	if seed%2 == 1 {
+		// every other subscriber is provisioned with OP only (OPc is derived at authentication time)
+		ue.AuthenticationSubs = tglib.GetAuthSubscription(fmt.Sprintf("%x", ev.Bytes(r, 16)), "", fmt.Sprintf("%x", ev.Bytes(r, 16)))
+	}
 	for i := 0; i < rounds; i++ {
 		// NGAP encode / decode
 		nasPdu := ev.Bytes(r, 10+r.Intn(40))
@@ -320,6 +324,9 @@ func workloadTight(seed int64, iters int) [][]byte {
 	ue := tglib.NewRanUeContext(fmt.Sprintf("imsi-20893%010d", seed), seed, uint8(1+seed%2), uint8(1+seed%2))
 	ue.KnasEnc, ue.KnasInt = kenc, kint
 	ue.AuthenticationSubs = tglib.GetAuthSubscription(fmt.Sprintf("%x", ev.Bytes(r, 16)), fmt.Sprintf("%x", ev.Bytes(r, 16)), "")
+	if seed%2 == 0 {
+		ue.AuthenticationSubs = tglib.GetAuthSubscription(fmt.Sprintf("%x", ev.Bytes(r, 16)), "", fmt.Sprintf("%x", ev.Bytes(r, 16)))
+	}
 	dlPlain := []byte{0x7e, 0x00, 0x54, 0xd1}
 	for i := 0; i < iters; i++ {
 		if i%4 == 0 {
@@ -376,21 +383,26 @@ func stress(g, rounds int, w *ev.Writer) {
 	if rounds >= 1000 { // -rounds 1000+N selects the tight workload with N iterations
 		wl = func(seed int64, _ int) [][]byte { return workloadTight(seed, rounds-1000) }
 	}
-	seq := make([][][]byte, g)
-	for i := 0; i < g; i++ {
-		seq[i] = wl(int64(i+1), rounds)
-	}
+	// the concurrent pass comes first: whatever the code initialises lazily (a cache, a table filled on first use) is still cold when
+	// the goroutines start together; the sequential reference is computed afterwards
 	conc := make([][][]byte, g)
 	pan := make([]bool, g)
 	var wg sync.WaitGroup
+	start := make(chan bool)
 	for i := 0; i < g; i++ {
 		wg.Add(1)
 		go func(i int) {
 			defer wg.Done()
+			<-start
 			pan[i] = ev.Catch(func() { conc[i] = wl(int64(i+1), rounds) }) != ""
 		}(i)
 	}
+	close(start)
 	wg.Wait()
+	seq := make([][][]byte, g)
+	for i := 0; i < g; i++ {
+		seq[i] = wl(int64(i+1), rounds)
+	}
 	for i := 0; i < g; i++ {
 		same := !pan[i] && reflect.DeepEqual(seq[i], conc[i])
 		var a, b []byte
